@@ -150,6 +150,20 @@ CLAIMED["C06"] = (
     "TLC/SANY; the rewriter (validated by its own reader: same object ids before/after); tile size 2 of the model is scaled to 256; "
     "silent-fallback wrappers of DESIGN.md are not installed (the observation itself shows a fallback as a changed value)",
     "DESIGN.md §4 C06")
+CLAIMED["C07"] = (
+    "TLC model checking of Package.tla (identifier allocation, component metadata, reference closure, with mutants); every save of fixtures, "
+    "API-built documents, edit histories and boundary table shapes abstracted by an independent structural validator and judged by TLC "
+    "(Trace_Package), first save and a second save of the reopened file",
+    "Package.tla models the object store as the code drives it (new_message_id, create object into a new or an existing archive file, component "
+    "metadata, copy-back of references) and checks FreshIds, DistinctIds, Listed, Closed; ReuseId / ForgetComponent / StaleHighWater / "
+    "DanglingRef variants are refuted. For each real save the harness's own zip+IWA reader and its own TSP.Reference walk produce the abstract "
+    "state (source ids, saved ids, rewritten ids by message digest, references of created/rewritten objects, the source's dangling targets, the "
+    "recorded high-water mark, added archive files vs component locators, per-tile row summaries) and TLC evaluates the clauses of C07: "
+    "reopenable, no duplicate ids, ids below the high-water mark, reference closure, files listed, tiles covering rows and columns with "
+    "in-bounds, aligned, increasing, non-overlapping records.",
+    "TLC/SANY; the structural validator (protobuf classes for field access only; record lengths from the CellRecord layout); tiles written by "
+    "Numbers may carry 255 offset slots, the surplus must be unused; Apple Numbers as consumer is out of reach",
+    "DESIGN.md §4 C07")
 NOT_YET = "check not built yet in this round (planned: see DESIGN.md section for this property)"
 NA = {}
 
